@@ -9,7 +9,7 @@
    buffered there; [ERR] likewise for stderr.  [delivered k l] is the sub-stream of l that the
    run() loop hands to a channel (ids registered at that moment, loop not stopped); under
    [well_addressed] it is l itself. *)
-From PV Require Import Bytes C21 C21_proofs.
+From PV Require Import Bytes C21_gen C21 C21_proofs.
 Open Scope Z_scope.
 
 (* stdout of channel c = the DATA payloads addressed to c, concatenated in wire order: for any
@@ -206,6 +206,27 @@ Theorem C21_sender_window :
     w - snd r = Z.of_nat (length (concat (fst (fst r)))).
 Proof. exact thm_sender_window. Qed.
 Print Assumptions C21_sender_window.
+
+(* tie to the source, re-proved every run over Gen/C21_gen.v (regenerated by gen/c21.py): every
+   modelled message kind has the number common.py gives it and Transport._channel_handler_table
+   routes that number to the handler the model's [handle] mirrors; the table is a function; the
+   stderr code, the packet overhead and Channel.__init__'s initial values are the model's *)
+Theorem C21_source_dispatch :
+  (forall m : msg, In (msg_ptype m, handler_code m) gen_handler_table) /\
+  NoDup (map fst gen_handler_table).
+Proof. exact (conj gen_dispatch gen_table_functional). Qed.
+Print Assumptions C21_source_dispatch.
+
+Theorem C21_source_constants :
+  gen_stderr_code = stderr_code /\ gen_packet_overhead = packet_overhead /\
+  gen_initial_exit_status = c_exit chan0 /\ gen_initial_combine = c_comb chan0 /\
+  gen_shapes_pinned = true /\
+  (forall ch code s, code <> gen_stderr_code -> handle ch (ExtData code s) = ch) /\
+  (forall c cid code s l, code <> gen_stderr_code ->
+     ext_of c ((cid, ExtData code s) :: l) = ext_of c l) /\
+  (forall len w p, 0 <= len <= w -> fst (send_size len w p) = Z.min len (p - gen_packet_overhead)).
+Proof. exact gen_constants. Qed.
+Print Assumptions C21_source_constants.
 
 (* ---- non-vacuity: three channels, interleaved traffic, reads, a switch ---------------------- *)
 Definition ex_k : ctl := mkCtl true [1; 2; 7] [1; 2; 7].
